@@ -37,6 +37,14 @@ def make_input(kind: str):
     if kind == "arrview":
         b = np.arange(6.0)
         return b[1:4], b
+    if kind == "arrT":          # transposed view: neither owner nor C-contiguous
+        b = np.arange(6.0).reshape(2, 3)
+        return b.T, b
+    if kind == "arrF":          # Fortran-ordered owner
+        return np.asfortranarray(np.arange(6.0).reshape(2, 3)), None
+    if kind == "tT":
+        b = mg.tensor(np.arange(6.0).reshape(2, 3))
+        return b.T, b
     if kind == "arri8":
         return np.array([1, 2, 3], dtype=np.int64), None
     if kind == "arrc16":
